@@ -12,6 +12,29 @@ FORMS = {"core": "literal/variable/setq/progn/prog1/if/when/unless/cond (incl. t
                 "marks, error and ignore-errors; exits placed in body positions and in function argument positions"}
 
 
+def judge(events, stim_of, findings, hit):
+    """Judge the traces with the machine. A rejected trace of a program that has the feature of an open finding with a named
+    deviation of the machine (C01-F4 "dynscope", C01-F5 "psetq-value") is judged a second time by the machine run with the deviations of those findings: if the whole
+    trace is then accepted it is an observation of the finding, otherwise it stays a violation (with the lexical verdict)."""
+    res = pipeline.accept(SPEC, "CoreTrace", "CoreTrace.cfg", events, timeout=3000)
+    devs = [f for f in findings if f.get("deviation")]
+
+    def applies(t):
+        return [f for f in devs if set(f["features"]) & set(stim_of(t).get("features", []))]
+
+    again = {b["t"] for b in res["bad"] if applies(b["t"])}
+    if again:
+        ev2 = [dict(e, dev=sorted(f["deviation"] for f in applies(e["t"]))) if e.get("ev") == "start" else e for e in events if e["t"] in again]
+        res2 = pipeline.accept(SPEC, "CoreTrace", "CoreTrace.cfg", ev2, timeout=3000)
+        still = {b["t"] for b in res2["bad"]}
+        for t in again - still:
+            for f in applies(t):
+                hit.setdefault(f["feature"], []).append(t)
+        res["bad"] = [b for b in res["bad"] if b["t"] not in again - still]
+        res["states"] += res2["states"]
+    return res
+
+
 def run(tier, seed, prop=PROP, profile="core"):
     rep = common.Report(prop, tier, seed)
     vdrive = common.build_harness()
@@ -27,8 +50,13 @@ def run(tier, seed, prop=PROP, profile="core"):
                 s["id"] = len(stimuli) + 1
                 stimuli.append(s)
     events = pipeline.drive(vdrive, "c01", stimuli, chunk=150, timeout=900)
-    res = pipeline.accept(SPEC, "CoreTrace", "CoreTrace.cfg", events, timeout=3000)
     by_id = {s["id"]: s for s in stimuli}
+    findings = [f for f in common.load_findings("C01") if f.get("status") == "open"]
+    hit = {}
+    res = judge(events, lambda t: by_id[t], findings, hit)
+    for f in findings:
+        if f["feature"] in hit:
+            rep.known.append(f["summary"] + f" ({len(hit[f['feature']])} programs)")
     for b in res["bad"]:
         s = by_id[b["t"]]
         rep.violation({"property": prop, "program": s["src"], "definitions": s["defsrc"], "rejected": b["event"], "why": b["why"],
@@ -46,9 +74,8 @@ def run(tier, seed, prop=PROP, profile="core"):
                             "Core.tla run by TLC (CoreTrace); distinct = distinct program texts",
                     "node_kinds": sorted(kinds),
                     "samples": [{"program": s["src"], "definitions": s["defsrc"]} for s in stimuli[:2]], "exhaustive": False})
-    rep.assumptions = ["closures and named functions use parameter names that are unique across call boundaries (a caller's variable of the "
-                       "same name would shadow the closure's: recorded deviation of the implementation, outside the generated sublanguage)",
-                       "return-from / go only to targets inside the same function body"]
+    rep.cov["probes"] = {k: len(v) for k, v in hit.items()}
+    rep.assumptions = ["return-from / go only to targets inside the same function body"]
     return rep.finish()
 
 
